@@ -251,6 +251,14 @@ struct Wrap: IWrap {
                     return new W(flag, init);
                 }
             }
+            // relocate: build the wrapper and move it to its final place before use - only for a wrapper type that
+            // is move constructible at all (the unmodified guarded_opt / shared_guarded_opt are not)
+            if constexpr (std::is_move_constructible_v<W>) {
+                if (init % 3 == 1) {
+                    W tmp(en, PA::mk(init));
+                    return new W(std::move(tmp));
+                }
+            }
             return new W(en, PA::mk(init));
         } else {
             return new W(PA::mk(init));
